@@ -5,7 +5,9 @@ pub mod c01;
 pub mod c02;
 pub mod c02_corpus;
 pub mod c03;
+pub mod c04;
 pub mod c05;
+pub mod c06;
 pub mod c07;
 pub mod c08;
 pub mod c09;
@@ -20,5 +22,5 @@ pub mod progx;
 pub mod vmgraph;
 
 pub fn all() -> Vec<PropSpec> {
-    vec![c01::spec(), c02::spec(), c03::spec(), c05::spec(), c07::spec(), c08::spec(), c09::spec(), c10::spec(), c11::spec(), c12::spec(), c13::spec(), c14::spec(), c15::spec(), c20::spec()]
+    vec![c01::spec(), c02::spec(), c03::spec(), c04::spec(), c05::spec(), c06::spec(), c07::spec(), c08::spec(), c09::spec(), c10::spec(), c11::spec(), c12::spec(), c13::spec(), c14::spec(), c15::spec(), c20::spec()]
 }
